@@ -353,6 +353,10 @@ def _annotate_parameter_type(parameter, ir, source_file_name, errors):
 
 def _types_are_compatible(a, b):
     """Returns true if a and b have compatible types."""
+    # An argument whose own type check failed has no type; the reader view
+    # treats it as an expression of no particular type.
+    a = ir_data_utils.reader(a)
+    b = ir_data_utils.reader(b)
     if a.type.which_type != b.type.which_type:
         return False
     elif a.type.which_type == "enumeration":
@@ -383,7 +387,7 @@ def _type_check_comparison_operator(expression, source_file_name, errors):
     left = expression.function.args[0]
     right = expression.function.args[1]
     for argument, name in ((left, "Left"), (right, "Right")):
-        if argument.type.which_type not in acceptable_types:
+        if ir_data_utils.reader(argument).type.which_type not in acceptable_types:
             errors.append(
                 [
                     error.error(
@@ -415,7 +419,7 @@ def _type_check_comparison_operator(expression, source_file_name, errors):
 def _type_check_choice_operator(expression, source_file_name, errors):
     """Checks the type of the choice operator cond ? if_true : if_false."""
     condition = expression.function.args[0]
-    if condition.type.which_type != "boolean":
+    if ir_data_utils.reader(condition).type.which_type != "boolean":
         errors.append(
             [
                 error.error(
@@ -426,7 +430,11 @@ def _type_check_choice_operator(expression, source_file_name, errors):
             ]
         )
     if_true = expression.function.args[1]
-    if if_true.type.which_type not in ("integer", "boolean", "enumeration"):
+    if ir_data_utils.reader(if_true).type.which_type not in (
+        "integer",
+        "boolean",
+        "enumeration",
+    ):
         errors.append(
             [
                 error.error(
